@@ -315,6 +315,7 @@ class KaniRunner:
                 if feats:
                     cmd += ["--features", ",".join(feats)]
                 env = dict(self.env)
+                env["RUSTFLAGS"] = env["RUSTFLAGS"] + " --cfg verif_playback"
                 if profile == "release":
                     # `cargo kani playback` has no --release: give the dev/test profiles release settings instead
                     for prof in ("DEV", "TEST"):
@@ -327,9 +328,11 @@ class KaniRunner:
                     p = subprocess.run(cmd, cwd=crate, env=env, stdout=out, stderr=subprocess.STDOUT, timeout=1200)
                 t = logf.read_text(errors="replace")
                 ran = re.search(r"test result: (ok|FAILED)\. (\d+) passed; (\d+) failed", t)
-                failed = bool(ran and int(ran.group(3)) > 0)
-                passed = bool(ran and int(ran.group(2)) > 0)
                 m = re.search(r"panicked at ([^\n]*)\n([^\n]*)", t)
+                # a reproduced failure = the test binary ran this test and it panicked (normally "N failed";
+                # an abort while unwinding leaves no summary line, only the panic message and a non-zero exit)
+                failed = bool(ran and int(ran.group(3)) > 0) or bool(m and p.returncode != 0 and f"test {'gen::playback::' + tname}" in t)
+                passed = bool(ran and int(ran.group(2)) > 0)
                 res[profile] = {"failed": failed, "passed": passed, "panic": (m.group(1) + " " + m.group(2)) if m else "", "log": str(logf)}
             res["reproduced"] = res["dev"]["failed"] or res["release"]["failed"]
             return res
